@@ -76,6 +76,19 @@ Definition moved_policy : policy := {|
   pol_range_l := never; pol_range_r := fun _ => never;
   pol_at := never; pol_spill := never |}.
 
+(* get_external_formula_updates_for_cut (cut_paste.rs), phase 1: the formula cells the pass does NOT
+   rewrite — "skip cells inside the area being moved":
+     ws_idx == area.sheet && row >= area.row && row < area.row + area.height
+                          && col >= area.column && col < area.column + area.width
+   every other formula cell of the workbook, on every sheet, is re-printed with [print_moved]
+   (source sheet = target sheet = its own sheet) and re-entered when the text differs *)
+Definition external_skipped (a : marea) (sheet row col : Z) : bool :=
+  (sheet =? ma_sheet a) && (ma_row a <=? row) && (row <? ma_row a + ma_height a)
+  && (ma_col a <=? col) && (col <? ma_col a + ma_width a).
+
+(* is a formula cell that holds a reference to the cut cell (r, c) of sheet [ma_sheet a] rewritten? *)
+Definition external_rewritten (a : marea) (sheet row col : Z) : bool := negb (external_skipped a sheet row col).
+
 Definition t_true : text := [84;82;85;69].
 Definition t_false : text := [70;65;76;83;69].
 
